@@ -76,6 +76,8 @@ func c11Alphabet(thorough bool) []c11Op {
 			}
 		}
 	}
+	// a member whose index key is the empty string (m[""] of a mapping with string keys)
+	ops = append(ops, c11Op{Kind: "regnested", Parent: 0, PType: 0, Slot: 2, Off: -1, Type: 0, Name: ""}, c11Op{Kind: "regnested", Parent: 1, PType: 0, Slot: 2, Off: -1, Type: 1, Name: ""})
 	// nested members at a non-zero offset of their own (packed struct members), and a second-level nesting
 	ops = append(ops, c11Op{Kind: "regnested", Parent: 0, PType: 0, Slot: 2, Off: 1, Type: 0, Name: "j"}, c11Op{Kind: "regnested", Parent: 1, PType: 0, Slot: 1, Off: 1, Type: 1, Name: "j"})
 	if thorough {
@@ -438,7 +440,7 @@ func init() {
 		ID:        "C11",
 		Level:     "model_checking",
 		Technique: "explicit-state breadth-first search over operation histories of the recorder API (successor = replay of the shortest history on a fresh recorder + one operation; visited set keyed by a canonical dump of the recorder's private state), every transition checked against a two-map reference model",
-		Rule: "operations = register top-level (2 accounts, slots {0,1}, offsets {nil,1,32,257} (+{0,31,2^40+1} thorough), 2 type ids, names {x,y}), register nested under (parent slot, parent type) with slots {0,2}, 2 types, keys {i,x}, journal change (slots {0,2,1}, offsets, types, 2 values), enter call, exit call; all histories up to the depth bound, expanded only from states with a new private-state dump. Per transition: accepted/refused as the model says; refusals and repeated registrations leave the dump unchanged; every registration that was consistent stays consistent and bound to the same record; name path and (slot, offset, type) of every conflict-free registration reach the same record; accepted journals appear last under the current call index in both views; reported child indices equal the registered set. non-trivial = distinct states in which at least one key is registered",
+		Rule: "operations = register top-level (2 accounts, slots {0,1}, offsets {nil,1,32,257} (+{0,31,2^40+1} thorough), 2 type ids, names {x,y}), register nested under (parent slot, parent type) with slots {0,2}, 2 types, keys {i,x,empty}, journal change (slots {0,2,1}, offsets, types, 2 values), enter call, exit call; all histories up to the depth bound, expanded only from states with a new private-state dump. Per transition: accepted/refused as the model says; refusals and repeated registrations leave the dump unchanged; every registration that was consistent stays consistent and bound to the same record; name path and (slot, offset, type) of every conflict-free registration reach the same record; accepted journals appear last under the current call index in both views; reported child indices equal the registered set. non-trivial = distinct states in which at least one key is registered",
 		Assumptions: []string{"registrations that conflict with an earlier one (same slot/offset under one parent with another name or type, same name with another slot, same key under another parent) cannot satisfy the statement under first-registration-wins; their symptoms are classified by signature (known findings), any other symptom is reported"},
 		Bounds: func(t string) map[string]any {
 			return map[string]any{"depth": c11Depth(t), "operations": len(c11Alphabet(t == "thorough"))}
